@@ -710,12 +710,12 @@ class BitStream(ConstBitStream, bitstring.BitArray):
         out of range.
 
         """
-        if count == 0:
-            return 0
         if len(old := Bits._create_from_bitstype(old)) == 0:
             raise ValueError("Empty bitstring cannot be replaced.")
         start, end = self._validate_slice(start, end)
         new = Bits._create_from_bitstype(new)
+        if count == 0:
+            return 0
         if new is self:
             # Prevent self assignment woes
             new = copy.copy(self)
